@@ -24,12 +24,13 @@ theorem znext_zappend (v : Option Bytes) (rest : Bytes) (hv : BodyFits v) :
     simp only [BodyFits] at hv
     simp only [zappend, znext, toTag, tagNull, tagLength, List.append_assoc]
     rw [readUvarint_uvarint (b.length + 1) (b ++ rest) (by unfold two63 two64 at *; omega)]
-    have h1 : asInt (b.length + 1 - 1) = Int.ofNat b.length := by
+    have h1 : asInt (b.length + 1 - 1) = (b.length : Int) := by
       rw [Nat.add_sub_cancel]; exact asInt_small _ (by omega)
     simp only [Nat.add_one_ne_zero, if_false, h1]
-    have h2 : ¬ (Int.ofNat b.length < 0) := by simp
-    have h3 : ¬ ((b ++ rest).length < (Int.ofNat b.length).toNat) := by simp
-    rw [if_neg h2, if_neg h3]
+    have h2 : ¬ ((b.length : Int) < 0) := by omega
+    have h3 : hasLen (b ++ rest) (b.length : Int).toNat = true := by
+      rw [hasLen_iff]; simp
+    rw [if_neg h2, h3]
     simp
 
 theorem ziterAll_zappendAll (vs : List (Option Bytes)) (h : ∀ v ∈ vs, BodyFits v) :
@@ -41,8 +42,8 @@ theorem ziterAll_zappendAll (vs : List (Option Bytes)) (h : ∀ v ∈ vs, BodyFi
     have hne : (zappendAll (v :: vs)).isEmpty = false := by
       simp only [zappendAll]
       cases v with
-      | none => simp [zappend, List.isEmpty_iff, uvarint_ne_nil]
-      | some b => simp [zappend, List.isEmpty_iff, uvarint_ne_nil]
+      | none => simp [zappend, uvarint_ne_nil]
+      | some b => simp [zappend, uvarint_ne_nil]
     simp only [hne, Bool.false_eq_true, if_false]
     have hz := znext_zappend v (zappendAll vs) (h v (by simp))
     simp only [zappendAll] at *
